@@ -67,7 +67,7 @@ Depth1At(j) == KItem("hdk.derive", "depth1", [seed |-> SeedHex(j, <<1, j>>), pat
 Depth2At(j) == KItem("hdk.derive", "depth2",
                      [seed |-> SeedHex(j, <<2, j>>),
                       path |-> Str(<<109, 47>> \o CompText((j - 1) \div 26) \o <<47>> \o CompText((j - 1) % 26))])
-NWalks == IF Thorough THEN 24000 ELSE 200
+NWalks == IF Thorough THEN 24000 ELSE 400
 WalkAt(j) ==
   LET depth == 1 + PrngNat(K("wd", <<j>>), 10)
       comp(i) == LET r == PrngNat(K("wc", <<j, i>>), 4) IN
@@ -88,7 +88,7 @@ KeyLenAt(j) ==
       m   == (j - 1) % 3
       b   == IF m = 0 THEN PadLeft(<<5>>, len) ELSE IF m = 1 THEN Rep(len, 255) ELSE Prng(K("kl", <<j>>), len)
   IN  KItem("key.new", "lengths", [secret |-> BytesToHex(IF len = 0 THEN <<>> ELSE b)])
-NKeyRand == IF Thorough THEN 11000 ELSE 200
+NKeyRand == IF Thorough THEN 11000 ELSE 800
 KeyAt(j) ==
   IF j <= Len(Scalars) THEN KItem("key.new", "scalars", [secret |-> BytesToHex(Scalars[j])])
   ELSE KItem("key.new", "random", [secret |-> BytesToHex(Prng(K("kr", <<j>>), 32))])
@@ -116,7 +116,7 @@ FieldP == Rep(27, 255) \o <<254, 255, 255, 252, 47>>
 Digests == <<Zeros(32), PadLeft(<<1>>, 32), NMinus(1), BnFixed(CurveN, 32), NPlus(1), Rep(32, 255), <<128>> \o Zeros(31),
              BnFixed(BnSub(FieldP, <<1>>), 32), FieldP, BnFixed(BnAdd(FieldP, <<1>>), 32), BnFixed(HalfN, 32)>>
 NSignFixed == 4 * Len(Digests)
-NSignRand  == IF Thorough THEN 11000 ELSE 350
+NSignRand  == IF Thorough THEN 11000 ELSE 700
 SignAt(j) ==
   IF j <= NSignFixed THEN
     KItem("key.sign", "boundary", [secret |-> BytesToHex(SignKeys[1 + ((j - 1) % 4)]),
